@@ -290,6 +290,48 @@ theorem lockset_discipline_race_free
     · exact ⟨e, he, hrel⟩
   · exact Or.inr (Or.inr hex)
 
+/-! ### The same theorem from the thread-local (syntactic) lockset -/
+
+theorem WF_prefix (l1 l2 : List Ev) (h : WF (l1 ++ l2)) : WF l1 := by
+  unfold WF at h ⊢
+  rw [run_append] at h
+  cases hr : run Holder.init l1 with
+  | none => rw [hr] at h; simp at h
+  | some _ => simp
+
+/-- conformance stated with what a per-goroutine syntactic analysis computes: the fact's mutexes
+    were acquired (or handed over) and not given up in the accessing thread's OWN preceding events -/
+def ConformsLocal (facts : List Access) (tc : Thread → Nat) (tr : List Ev) : Prop :=
+  ∀ pre t x f post, tr = pre ++ Ev.acc t x f :: post →
+    ∃ a, facts[f]? = some a ∧ a.cls = x.1 ∧ tc t = a.thread ∧
+      ∀ l ∈ a.locks, localHeld t (l.inst x.2) pre false = true
+
+theorem conformsLocal_conforms (facts : List Access) (tc : Thread → Nat) (tr : List Ev)
+    (hwf : WF tr) (h : ConformsLocal facts tc tr) : Conforms facts tc tr := by
+  intro pre t x f post htr
+  obtain ⟨a, ha, hc, ht, hl⟩ := h pre t x f post htr
+  refine ⟨a, ha, hc, ht, ?_⟩
+  intro l hlm
+  have hwp : WF pre := WF_prefix pre (Ev.acc t x f :: post) (htr ▸ hwf)
+  exact localHeld_sound pre t (l.inst x.2) hwp (hl l hlm)
+
+/-- `lockset_discipline_race_free` with the syntactic lockset as hypothesis -/
+theorem lockset_discipline_race_free_local
+    (facts : List Access) (tc : Thread → Nat)
+    (c : Nat) (hcheck : checkClass facts c = true)
+    (pre mid post : List Ev) (t1 t2 : Thread) (o f1 f2 : Nat)
+    (hsingle : SingletonThreads facts tc
+      (pre ++ Ev.acc t1 (c, o) f1 :: (mid ++ Ev.acc t2 (c, o) f2 :: post)) (c, o))
+    (hwf : WF (pre ++ Ev.acc t1 (c, o) f1 :: (mid ++ Ev.acc t2 (c, o) f2 :: post)))
+    (hconf : ConformsLocal facts tc (pre ++ Ev.acc t1 (c, o) f1 :: (mid ++ Ev.acc t2 (c, o) f2 :: post)))
+    (hne : t1 ≠ t2) :
+    ∃ a b, facts[f1]? = some a ∧ facts[f2]? = some b ∧
+      ((isWrite facts a = false ∧ isWrite facts b = false) ∨
+       LockOrdered pre (Ev.acc t1 (c, o) f1) mid t1 t2 ∨
+       exempt a b = true) :=
+  lockset_discipline_race_free facts tc c hcheck pre mid post t1 t2 o f1 f2 hsingle hwf
+    (conformsLocal_conforms facts tc _ hwf hconf) hne
+
 /-- Corollary with the non-lock orderings as an explicit hypothesis `hsync`: every conflicting
     pair is ordered, by a mutex hand-over or by the assumed synchronisation. -/
 theorem race_free_under_sync_hypotheses
@@ -359,11 +401,117 @@ theorem violatingPairsFrom_nil_compat (facts : List Access) :
       exact hv _ this hc
     · exact ih c (fun p hp => hv p (by simp [violatingPairsFrom, hp])) a ha hc
 
+/-! ## Object life cycle: a live or re-validated pointer is never seen torn down -/
+
+/-- the step does not take `m` away from `t` -/
+def LKeeps (t : Thread) (m : Lock) : LEv → Prop
+  | .sync e => ¬ Releases e t m
+  | _ => True
+
+theorem lstep_guard_persist (G : Lock) (S : Nat → Lock) (s s' : LState) (e : LEv) (t : Thread)
+    (o : Nat) (m : Lock) (hm : m = G ∨ m = S o)
+    (hs : lstep G S s e = some s') (hh : s.holder m = some t) (hc : s.cleared o = false)
+    (hk : LKeeps t m e) (hself : e ≠ .clear t o) :
+    s'.holder m = some t ∧ s'.cleared o = false := by
+  cases e with
+  | sync e' =>
+    simp only [lstep] at hs
+    cases hst : step s.holder e' with
+    | none => rw [hst] at hs; cases hs
+    | some h' =>
+      rw [hst] at hs; injection hs with hs; subst hs
+      exact ⟨step_persist s.holder h' e' t m hst hh hk, hc⟩
+  | clear t' o' =>
+    simp only [lstep] at hs
+    split at hs
+    · rename_i hg
+      injection hs with hs; subst hs
+      refine ⟨hh, ?_⟩
+      by_cases ho : o = o'
+      · subst ho
+        exfalso
+        rcases hm with rfl | rfl
+        · rw [hh] at hg; have := hg.1; injection this with this; subst this; exact hself rfl
+        · rw [hh] at hg; have := hg.2; injection this with this; subst this; exact hself rfl
+      · simp [ho, hc]
+    · cases hs
+  | lookup t' o' =>
+    simp only [lstep] at hs
+    split at hs
+    · injection hs with hs; subst hs; exact ⟨hh, hc⟩
+    · cases hs
+  | check t' o' =>
+    simp only [lstep] at hs
+    split at hs
+    · injection hs with hs; subst hs; exact ⟨hh, hc⟩
+    · cases hs
+  | use _ _ =>
+    simp only [lstep] at hs; injection hs with hs; subst hs; exact ⟨hh, hc⟩
+
+theorem lrun_guard_persist (G : Lock) (S : Nat → Lock) (t : Thread) (o : Nat) (m : Lock)
+    (hm : m = G ∨ m = S o) (evs : List LEv) :
+    ∀ (s s' : LState), lrun G S s evs = some s' → s.holder m = some t → s.cleared o = false →
+      (∀ e ∈ evs, LKeeps t m e) → (∀ e ∈ evs, e ≠ .clear t o) →
+      s'.holder m = some t ∧ s'.cleared o = false := by
+  induction evs with
+  | nil => intro s s' hr hh hc _ _; simp only [lrun] at hr; injection hr with hr; subst hr; exact ⟨hh, hc⟩
+  | cons e es ih =>
+    intro s s' hr hh hc hk hself
+    simp only [lrun] at hr
+    cases hs : lstep G S s e with
+    | none => rw [hs] at hr; cases hr
+    | some s1 =>
+      rw [hs] at hr
+      obtain ⟨h1, c1⟩ := lstep_guard_persist G S s s1 e t o m hm hs hh hc (hk e (by simp)) (hself e (by simp))
+      exact ih s1 s' hr h1 c1 (fun e' he' => hk e' (by simp [he'])) (fun e' he' => hself e' (by simp [he']))
+
+/-- **A live pointer is never seen torn down** (every trace, by induction).  Thread `t` finds
+    object `o` in the registry (`lookup`, under the registry lock `G`); as long as `t` does not
+    give `G` up (and does not tear `o` down itself), `o` is not torn down — whatever the other
+    threads do, because every teardown needs `G`.  This is the `live` flag of an access fact. -/
+theorem live_pointer_not_torn_down (G : Lock) (S : Nat → Lock) (s0 s1 s2 : LState)
+    (pre mid : List LEv) (t : Thread) (o : Nat)
+    (hpre : lrun G S s0 pre = some s1)
+    (hmid : lrun G S s1 (LEv.lookup t o :: mid) = some s2)
+    (hkeep : ∀ e ∈ mid, LKeeps t G e) (hself : ∀ e ∈ mid, e ≠ .clear t o) :
+    s2.cleared o = false := by
+  have _ := hpre
+  by_cases hg : s1.holder G = some t ∧ s1.cleared o = false
+  · have hmid' : lrun G S s1 mid = some s2 := by simpa [lrun, lstep, hg] using hmid
+    exact (lrun_guard_persist G S t o G (Or.inl rfl) mid s1 s2 hmid' hg.1 hg.2 hkeep hself).2
+  · simp [lrun, lstep, hg] at hmid
+
+/-- **A re-validated pointer is never seen torn down.**  `t` re-checks `o` (a cleared field is
+    non-nil) while holding `o`'s own lock; as long as `t` keeps that lock, `o` is not torn down,
+    because every teardown needs the object's lock too.  This is the `valid` flag. -/
+theorem validated_pointer_not_torn_down (G : Lock) (S : Nat → Lock) (s1 s2 : LState)
+    (mid : List LEv) (t : Thread) (o : Nat)
+    (hmid : lrun G S s1 (LEv.check t o :: mid) = some s2)
+    (hkeep : ∀ e ∈ mid, LKeeps t (S o) e) (hself : ∀ e ∈ mid, e ≠ .clear t o) :
+    s2.cleared o = false := by
+  by_cases hg : s1.holder (S o) = some t ∧ s1.cleared o = false
+  · have hmid' : lrun G S s1 mid = some s2 := by simpa [lrun, lstep, hg] using hmid
+    exact (lrun_guard_persist G S t o (S o) (Or.inr rfl) mid s1 s2 hmid' hg.1 hg.2 hkeep hself).2
+  · simp [lrun, lstep, hg] at hmid
+
+/-- **Witness (seeded C15-C shape)**: the reader looks the object up under `G`, releases `G`,
+    takes the object's lock and uses the object — every access is under some mutex, the pairwise
+    lockset rule is satisfied — yet the trace is enabled and the object is torn down at the use. -/
+def staleTrace : List LEv :=
+  [ .sync (.acq 1 (0, 0)), .lookup 1 7, .sync (.rel 1 (0, 0)),          -- reader: snapshot under G
+    .sync (.acq 2 (0, 0)), .sync (.acq 2 (1, 7)), .clear 2 7,            -- scheduler: unload under G and S
+    .sync (.rel 2 (1, 7)), .sync (.rel 2 (0, 0)),
+    .sync (.acq 1 (1, 7)), .use 1 7 ]                                     -- reader: use under S only
+
+theorem stale_pointer_witness :
+    ((lrun (0, 0) (fun o => (1, o)) LState.init staleTrace).map (fun s => s.cleared 7)) = some true := by
+  decide
+
 /-! ## Witnesses -/
 
 private def rd (site cls : Nat) (locks : List LockRef) (thread : Nat) : Access :=
   { site, cls, kind := .read, locks, thread, single := false, init := false, racy := false,
-    atomic := false, pre := [], post := [], hb := [] }
+    atomic := false, pre := [], post := [], hb := [], use := true, live := false, valid := false }
 private def wr (site cls : Nat) (locks : List LockRef) (thread : Nat) : Access :=
   { rd site cls locks thread with kind := .write }
 
